@@ -106,7 +106,17 @@ struct Inner<C> {
 
 struct PublishInfo {
     inflight: HashSet<num::NonZeroU16>,
+    /// unacknowledged QoS 1/2 publishes, the part of `inflight` Receive Maximum applies to
+    publishes: HashSet<num::NonZeroU16>,
     aliases: HashMap<num::NonZeroU16, ByteString>,
+}
+
+impl PublishInfo {
+    /// Exchange is completed, packet id can be re-used
+    fn release(&mut self, id: num::NonZeroU16) {
+        self.inflight.remove(&id);
+        self.publishes.remove(&id);
+    }
 }
 
 impl<T, C, E> Dispatcher<T, C, E>
@@ -131,6 +141,7 @@ where
                 info: RefCell::new(PublishInfo {
                     aliases: HashMap::default(),
                     inflight: HashSet::default(),
+                    publishes: HashSet::default(),
                 }),
             }),
         }
@@ -205,12 +216,12 @@ where
                     if let Some(pid) = packet_id {
                         // check for receive maximum
                         let receive_max = state.receive_max();
-                        if receive_max != 0 && inner.inflight.len() >= receive_max as usize {
+                        if receive_max != 0 && inner.publishes.len() >= receive_max as usize {
                             log::trace!(
                                 "{}: Receive maximum exceeded: max: {} in-flight: {}",
                                 self.tag(),
                                 receive_max,
-                                inner.inflight.len()
+                                inner.publishes.len()
                             );
                             return Err(SpecViolation::Pub_3_3_4_7.into());
                         }
@@ -241,6 +252,7 @@ where
                             ));
                             return Ok(None);
                         }
+                        inner.publishes.insert(pid);
                     }
 
                     // handle topic aliases
@@ -459,7 +471,7 @@ impl<C> Inner<C> {
         let result = match self.control.call(pkt).await {
             Ok(result) => {
                 if let Some(id) = num::NonZeroU16::new(packet_id) {
-                    self.info.borrow_mut().inflight.remove(&id);
+                    self.info.borrow_mut().release(id);
                 }
                 result
             }
@@ -524,7 +536,7 @@ where
         let ack = if qos2 {
             if u8::from(ack.reason_code) >= 0x80 {
                 // negative PUBREC completes the exchange, PUBREL is not going to follow
-                inner.info.borrow_mut().inflight.remove(&id);
+                inner.info.borrow_mut().release(id);
             }
             codec::Packet::PublishReceived(codec::PublishAck {
                 packet_id: id,
@@ -533,7 +545,7 @@ where
                 properties: ack.properties,
             })
         } else {
-            inner.info.borrow_mut().inflight.remove(&id);
+            inner.info.borrow_mut().release(id);
             codec::Packet::PublishAck(codec::PublishAck {
                 packet_id: id,
                 reason_code: ack.reason_code,
